@@ -163,6 +163,7 @@ def _covers(update, mutation):
 def _r1(ctx, pkg):
     ci = pkg.cls("Network")
     n = 0
+    judged = set()
     # helper PROCEDURES of the class are expanded where they are called (`self._rebuild_caches()` is the statements it holds); the
     # adders stay calls: they are the cache-maintaining primitives _cache_updates knows
     def procs(name):
@@ -202,12 +203,15 @@ def _r1(ctx, pkg):
                     ctx.unrec("R1", key, (NF, m.line), f"`{mname}` changes self.reaction_list without updating {missing}; it is a step of {left}, where it could not be put back in place to see whether the caller completes the update")
                 continue            # judged as part of each caller (the step is expanded there)
             n += 1
+            judged.add(mname)
             ctx.check(not missing, "R1", key, (NF, m.line),
                       "the cached species sets are updated on this path" if not missing else
                       f"self.reaction_list is changed here ({kind}) but {missing} are neither updated nor rebuilt on this path: "
                       "species / sources / sinks keep the species of reactions that are gone",
                       expected="update or rebuild of self._reactants and self._products", found=f"{kind} of reaction_list only")
-    ctx.floor("R1", "mutations of reaction_list", n, 7)
+    # (counted per METHOD: how many statements a method spreads its edit over -- one rebuild per kind of argument, or one rebuild
+    # with the test chosen beforehand -- is spelling; today: _add_reaction, remove_reaction, the allowed_species setter)
+    ctx.floor("R1", "methods that change reaction_list", len(judged), 3)
     # nobody outside Network writes the caches
     outside = []
     own = {id(n_) for n_ in ast.walk(ci.node)}        # statements of Network's own methods, whatever the receiver is called
@@ -691,9 +695,12 @@ def _r4(ctx, pkg):
     for f, layers, members in rets[:1]:
         ops = union_operands(members)
         ok = len(ops) == 3 and set(ops) == want
-        # a helper method that could not be followed, a loop-carried value: not understood (never a verdict)
-        opaque = not ok and any(o[0] in ("unknown", "carried", "after", "acc", "phi") or (o[0] == "meth" and o[1] == SELF) for o in ops)
-        if opaque:
+        # VIOLATION only for a union that is understood -- every operand one of the instance's own collections (as it is, or as a
+        # set) -- and is not the three: one is missing, another one is mixed in.  A helper that could not be followed, a selection,
+        # a loop-carried value: not understood (never a verdict)
+        plain = lambda o: (o[0] == "attr" and o[1] == SELF) or (o[0] == "call" and o[1] in (("global", "set"), ("global", "frozenset")) and len(o[2]) == 1 and not o[3]
+                                                                and o[2][0][0] == "attr" and o[2][0][1] == SELF)
+        if not ok and not (ops and all(plain(o) for o in ops)):
             ctx.unrec("R4", "Network.species:source", (NF, fn.lineno), f"where the species come from is not understood: {show(members)[:120]}")
         else:
             ctx.check(ok, "R4", "Network.species:source", (NF, fn.lineno), "species are the members of _reactants | _products | set(_required_species)", found=show(members)[:100])
@@ -708,9 +715,17 @@ def _r4(ctx, pkg):
     if src is None or snk is None:
         ctx.unrec("R4", "Network.find_source_sink", (NF, fn.lineno), "the result is not a pair of set differences: " + "; ".join(show(x)[:80] for x in rv))
     else:
+        def bare(o):
+            while o[0] == "call" and o[1] in (("global", "set"), ("global", "frozenset")) and len(o[2]) == 1 and not o[3]:
+                o = o[2][0]
+            return o
+        src, snk = tuple(bare(o) for o in src), tuple(bare(o) for o in snk)
         ok = src == (R, P) and snk == (P, R)
-        ctx.check(ok, "R4", "Network.find_source_sink", (NF, fn.lineno), "sources = reactants - products, sinks = products - reactants",
-                  found=f"{show(src[0])} - {show(src[1])} / {show(snk[0])} - {show(snk[1])}")
+        if not ok and not all(o in (R, P) for o in src + snk):
+            ctx.unrec("R4", "Network.find_source_sink", (NF, fn.lineno), f"a difference of collections other than the two cached sets: {show(src[0])[:60]} - {show(src[1])[:60]} / {show(snk[0])[:60]} - {show(snk[1])[:60]}")
+        else:
+            ctx.check(ok, "R4", "Network.find_source_sink", (NF, fn.lineno), "sources = reactants - products, sinks = products - reactants",
+                      found=f"{show(src[0])} - {show(src[1])} / {show(snk[0])} - {show(snk[1])}")
 
 
 # ------------------------------------------------------------------ R7  a one-off reduction must not stay behind as a filter
